@@ -25,6 +25,11 @@ CHECKS = {
         technique="Lean 4 theorems about a hand-written model of source_map.py (serialize/deserialize/rewrite_offsets) + exact model-vs-implementation correspondence + property oracle on real objects",
         text="Kernel-checked theorems for all source maps with dict-like key uniqueness and all injective offset mappings: deserialize∘serialize = id (all four tables, every field), re-serialisation identical, equality after round trip, rewrite_offsets moves exactly the entries whose op is in the mapping and maps each return address to the new offset of the next surviving op. The model is compared with the real code on every run.",
         note=COMMON_NOTE + "Python's json module round trip on ints/strings/null/lists/objects is assumed; ill-typed JSON documents are out of scope."),
+    "C17": dict(
+        level="proof", design="4/C17",
+        technique="Lean 4 theorems about a hand-written model of Pygments' Lexer.get_tokens preprocessing + RegexLexer loop + one matcher per regex of the regenerated rule table; table lemmas (rules_known, cover_ok, opts_known) over the regenerated tables; exact model-vs-implementation comparison of token lists and of every rule's compiled regex; property oracle on the real lexer",
+        text="Kernel-checked for ALL texts (lists of Unicode scalar values) about the model: the lexer loop always terminates with a token list (every rule application consumes >= 1 character, no empty match, no missing state), the token texts of get_tokens_unprocessed concatenate to exactly the input, get_tokens' token texts concatenate to the preprocessed input, and no Error token is ever emitted (for any text, not only accepted programs). The literal property is false on the pinned code (Pygments defaults strip a leading U+FEFF, leading and trailing newlines and normalise CR): proved instead under the decidable guard Clean, which is shown to be exact (no_text_lost_iff), with kernel-checked counterexamples; the four defect shapes are recorded as known findings and replayed on the real lexer on every run.",
+        note=COMMON_NOTE + "Pygments' RegexLexer engine, Lexer.get_tokens and Python's re module are MODELLED by hand, not verified: the tie is the per-run differential comparison (token lists on generated texts incl. exhaustive enumeration over the delimiter alphabet, every rule's compiled regex object vs the Lean matcher at random positions) plus table lemmas that fail to build when a regex, flag, state action or lexer option outside the modelled set appears. Unicode \\w/\\d membership tables are read from the running interpreter's re. words(): regex_opt's alternation order is argued irrelevant (keywords are ASCII word-character strings followed by \\b), not proved. Lone surrogates and bytes input are outside the model (surrogates are exercised on the real lexer only)."),
 }
 
 PENDING_REASON = "check not built yet in this round (design in DESIGN.md §4); will be claimed once its Lean model and correspondence exist"
